@@ -1,8 +1,1825 @@
-//! C11 — placeholder, replaced by the real check.
-use crate::core::{CaseOut, Run};
-pub fn run(run: &Run) {
-	run.infra("C11 is not built yet");
+//! C11 — stdlib string, encoding, parsing and hashing functions match their documented definitions.
+//!
+//! Reference implementations over `Vec<char>` (code-point semantics by construction) transcribed from the documented
+//! definitions; second references (hashes, base64, UTF-8) through the Python sidecar; model-free inverse laws.
+//! Where the documentation leaves an outcome open the question is asked with `Want::Any` (only a crash fails).
+use std::{
+	cell::Cell,
+	io::Write as _,
+	process::{Command, Stdio},
+};
+
+use serde_json::{json, Value};
+
+use crate::{
+	ast::{self, StrStyle},
+	core::{hash128, CaseOut, Run, Src, Verdict},
+	jr::{self, Opts, Outcome},
+	json::{self, J},
+};
+
+const ORACLE: &str = "/verif/harness/oracle_c11.py";
+/// questions per tape-generated case
+const PER_CASE: usize = 8;
+/// questions per batch program in the sidecar stages
+const CHUNK: usize = 50;
+
+// ---------------------------------------------------------------------------------------------------------------
+// questions and their decision
+// ---------------------------------------------------------------------------------------------------------------
+
+#[derive(Clone, Debug)]
+pub enum Want {
+	/// succeeds with exactly this value (object fields in any order)
+	Is(J),
+	/// succeeds with one of these values
+	OneOf(Vec<J>),
+	/// must be an error
+	Err,
+	/// an error, or one of these values
+	ErrOr(Vec<J>),
+	/// not pinned down by the documentation: any outcome but a crash
+	Any,
+	/// a number within so many ulps
+	Approx(f64, u64),
+	/// a string that is a JSON string literal denoting exactly this text
+	JsonLit(String),
 }
-pub fn replay(_run: &Run, _stage: &str, _tape: Option<&[u16]>, _v: &serde_json::Value) -> Option<CaseOut> {
-	None
+
+pub struct Q {
+	pub expr: String,
+	pub want: Want,
+	pub func: &'static str,
+	pub nontrivial: bool,
+	/// for string functions: does the subject contain a non-ASCII code point in its first half?
+	pub early: Option<bool>,
+	/// identity of the input in batch stages (for replay)
+	pub key: String,
+	/// signature of a recorded finding: if the question is answered wrongly, but in exactly this way, and the finding
+	/// is listed with status `known`, the failure counts as that finding
+	pub alt: Option<(&'static str, Want)>,
+}
+
+fn q(func: &'static str, expr: String, want: Want, nontrivial: bool, subject: Option<&[char]>) -> Q {
+	Q { expr, want, func, nontrivial, early: subject.filter(|s| !s.is_empty()).map(early), key: String::new(), alt: None }
+}
+impl Q {
+	fn or_known(mut self, id: &'static str, alt: Want) -> Q {
+		self.alt = Some((id, alt));
+		self
+	}
+}
+
+/// std.base64 of a string encodes its UTF-8 bytes instead of one byte per code point (documented domain 0..255)
+pub const K_BASE64_STR: &str = "C11-base64-string-encodes-utf8";
+/// std.base64Decode decodes the bytes as UTF-8 (error when ill-formed) instead of one code point per byte
+pub const K_BASE64_DECODE: &str = "C11-base64Decode-decodes-utf8";
+/// std.parseHex takes the characters `:;<=>?` for the digits a..f
+pub const K_PARSE_HEX: &str = "C11-parseHex-punctuation-digits";
+
+pub enum Ans {
+	Ok,
+	Known(&'static str),
+	Bad(String),
+}
+
+enum Got {
+	Val(J),
+	Err(String),
+	Broken(String),
+}
+
+fn clip(mut t: String) -> String {
+	if t.len() > 400 {
+		let mut cut = 400;
+		while !t.is_char_boundary(cut) {
+			cut -= 1;
+		}
+		t.truncate(cut);
+		t.push('…');
+	}
+	t
+}
+
+fn sorted(v: &J) -> J {
+	let mut v = v.clone();
+	v.sort_keys();
+	v
+}
+
+fn ulps(a: f64, b: f64) -> u64 {
+	if a == b {
+		return 0;
+	}
+	if a.is_sign_negative() != b.is_sign_negative() {
+		return u64::MAX;
+	}
+	a.to_bits().abs_diff(b.to_bits())
+}
+
+fn decide(want: &Want, got: &Got) -> Result<(), String> {
+	let shown = match got {
+		Got::Broken(m) => return Err(m.clone()),
+		Got::Val(v) => clip(v.to_text()),
+		Got::Err(m) => clip(format!("error: {m}")),
+	};
+	let val = match got {
+		Got::Val(v) => Some(sorted(v)),
+		_ => None,
+	};
+	let among = |ws: &[J]| val.as_ref().is_some_and(|g| ws.iter().any(|w| sorted(w).same(g)));
+	let list = |ws: &[J]| ws.iter().map(|w| clip(w.to_text())).collect::<Vec<_>>().join(" or ");
+	match want {
+		Want::Any => Ok(()),
+		Want::Err => {
+			if val.is_some() {
+				Err(format!("expected an error, got {shown}"))
+			} else {
+				Ok(())
+			}
+		}
+		Want::Is(w) => {
+			if among(std::slice::from_ref(w)) {
+				Ok(())
+			} else {
+				Err(format!("expected {}, got {shown}", clip(w.to_text())))
+			}
+		}
+		Want::OneOf(ws) => {
+			if among(ws) {
+				Ok(())
+			} else {
+				Err(format!("expected {}, got {shown}", list(ws)))
+			}
+		}
+		Want::ErrOr(ws) => {
+			if val.is_none() || among(ws) {
+				Ok(())
+			} else {
+				Err(format!("expected an error or {}, got {shown}", list(ws)))
+			}
+		}
+		Want::Approx(w, tol) => match &val {
+			Some(J::Num(g)) if ulps(*g, *w) <= *tol => Ok(()),
+			_ => Err(format!("expected {w:?} (within {tol} ulp), got {shown}")),
+		},
+		Want::JsonLit(text) => match &val {
+			Some(J::Str(r)) => match json::parse(r) {
+				Ok(J::Str(back)) if back == *text => Ok(()),
+				Ok(other) => Err(format!("result {shown} read as JSON denotes {} instead of the argument", clip(other.to_text()))),
+				Err(e) => Err(format!("result {shown} is not a JSON string literal ({} at {})", e.0, e.1)),
+			},
+			_ => Err(format!("expected a JSON string literal, got {shown}")),
+		},
+	}
+}
+
+fn eval_items(exprs: &[&str]) -> Result<Vec<Got>, String> {
+	let mut prog = String::from("[\n");
+	for e in exprs {
+		prog.push_str("  verif.tryj((");
+		prog.push_str(e);
+		prog.push_str(")),\n");
+	}
+	prog.push_str("]\n");
+	let text = match jr::eval(&prog, &Opts::default()) {
+		Outcome::Val(t) => t,
+		o => return Err(format!("did not evaluate: {}", clip(o.short()))),
+	};
+	let Ok(J::Arr(items)) = json::parse(&text) else { return Err("batch output is not a JSON array".to_owned()) };
+	if items.len() != exprs.len() {
+		return Err("batch output has the wrong length".to_owned());
+	}
+	Ok(items
+		.iter()
+		.map(|item| {
+			let J::Arr(r) = item else { return Got::Broken("malformed result".to_owned()) };
+			match (r.first(), r.get(1), r.get(2)) {
+				(Some(J::Bool(true)), Some(J::Str(t)), _) => match json::parse(t) {
+					Ok(v) => Got::Val(v),
+					Err(e) => Got::Broken(format!("result is not valid JSON ({} at {}): {}", e.0, e.1, clip(t.clone()))),
+				},
+				(Some(J::Bool(false)), Some(J::Str(k)), Some(J::Str(m))) => Got::Err(format!("[{k}] {m}")),
+				_ => Got::Broken("malformed result".to_owned()),
+			}
+		})
+		.collect())
+}
+
+/// evaluate the questions in one program (falling back to one program per question if the batch as a whole breaks,
+/// so that a crash is pinned on the question that causes it) and decide each
+pub fn ask(run: &Run, qs: &[Q]) -> Vec<Ans> {
+	if qs.is_empty() {
+		return vec![];
+	}
+	let answer = |q: &Q, g: &Got| match decide(&q.want, g) {
+		Ok(()) => Ans::Ok,
+		Err(e) => match &q.alt {
+			Some((id, alt)) if run.is_known(id) && decide(alt, g).is_ok() => Ans::Known(id),
+			_ => Ans::Bad(e),
+		},
+	};
+	let exprs: Vec<&str> = qs.iter().map(|q| q.expr.as_str()).collect();
+	match eval_items(&exprs) {
+		Ok(gots) => qs.iter().zip(gots.iter()).map(|(q, g)| answer(q, g)).collect(),
+		Err(e) if qs.len() == 1 => vec![answer(&qs[0], &Got::Broken(e))],
+		Err(_) => qs.iter().flat_map(|q| ask(run, std::slice::from_ref(q))).collect(),
+	}
+}
+
+/// verdict of a group of questions asked together
+fn verdict_of(text_ok: String, first: &Q, problems: Vec<String>, known: Option<&'static str>, text_bad: String) -> CaseOut {
+	if !problems.is_empty() {
+		let n = problems.len();
+		let mut shown = problems;
+		shown.truncate(12);
+		let head = if n > 1 { format!("{n} questions answered wrongly:\n") } else { String::new() };
+		CaseOut::fail(text_bad, format!("{head}{}", shown.join("\n"))).classes(classes_of(first))
+	} else if let Some(id) = known {
+		CaseOut { verdict: Verdict::Known(id.to_owned()), text: text_ok, nontrivial: true, classes: classes_of(first) }
+	} else {
+		CaseOut::pass(text_ok, first.nontrivial).classes(classes_of(first))
+	}
+}
+
+fn classes_of(qu: &Q) -> Vec<String> {
+	let mut c = vec![format!("fn:{}", qu.func)];
+	if let Some(e) = qu.early {
+		c.push("subject:string".to_owned());
+		if e {
+			c.push("subject:nonascii-early".to_owned());
+		}
+	}
+	if matches!(qu.want, Want::Any) {
+		c.push("want:any".to_owned());
+	}
+	if matches!(qu.want, Want::Err) {
+		c.push("want:error".to_owned());
+	}
+	c
+}
+
+// ---------------------------------------------------------------------------------------------------------------
+// literals
+// ---------------------------------------------------------------------------------------------------------------
+
+fn lit(s: &str) -> String {
+	ast::string_literal(s, StrStyle::Double, "")
+}
+fn litc(s: &[char]) -> String {
+	lit(&s.iter().collect::<String>())
+}
+fn st(s: &[char]) -> String {
+	s.iter().collect()
+}
+fn jstr(s: &[char]) -> J {
+	J::Str(st(s))
+}
+fn jstrs(v: &[Vec<char>]) -> J {
+	J::Arr(v.iter().map(|x| jstr(x)).collect())
+}
+fn jnum(n: usize) -> J {
+	J::Num(n as f64)
+}
+
+#[derive(Clone, Copy)]
+enum NumArg {
+	Int(i64),
+	Frac(f64),
+}
+impl NumArg {
+	fn lit(self) -> String {
+		match self {
+			NumArg::Int(i) if i < 0 => format!("(-{})", -i),
+			NumArg::Int(i) => format!("{i}"),
+			NumArg::Frac(f) if f < 0.0 => format!("(-{:?})", -f),
+			NumArg::Frac(f) => format!("{f:?}"),
+		}
+	}
+	fn nat(self) -> Option<usize> {
+		match self {
+			NumArg::Int(i) if i >= 0 => Some(i as usize),
+			_ => None,
+		}
+	}
+}
+
+// ---------------------------------------------------------------------------------------------------------------
+// reference implementations (documented definitions, code-point semantics)
+// ---------------------------------------------------------------------------------------------------------------
+
+fn is_wide(s: &[char]) -> bool {
+	s.iter().any(|c| (*c as u32) > 127)
+}
+fn early(s: &[char]) -> bool {
+	s.iter().take(s.len().div_ceil(2)).any(|c| (*c as u32) > 127)
+}
+
+/// "the part of s that starts at offset from and is len codepoints long; if s is shorter than from+len, the suffix
+/// starting at position from"
+fn r_substr(s: &[char], from: usize, len: usize) -> Vec<char> {
+	let a = from.min(s.len());
+	let b = from.saturating_add(len).min(s.len());
+	s[a..b].to_vec()
+}
+
+/// split at the occurrences of `c`, found left to right, at most `max` times (None: unlimited); `c` non-empty
+fn r_split(s: &[char], c: &[char], max: Option<usize>) -> Vec<Vec<char>> {
+	let mut out = vec![];
+	let mut cur = vec![];
+	let mut i = 0;
+	let mut splits = 0;
+	while i < s.len() {
+		if max.is_none_or(|m| splits < m) && i + c.len() <= s.len() && s[i..i + c.len()] == *c {
+			out.push(std::mem::take(&mut cur));
+			i += c.len();
+			splits += 1;
+		} else {
+			cur.push(s[i]);
+			i += 1;
+		}
+	}
+	out.push(cur);
+	out
+}
+
+/// the same, scanning from right to left
+fn r_split_r(s: &[char], c: &[char], max: Option<usize>) -> Vec<Vec<char>> {
+	let rs: Vec<char> = s.iter().rev().copied().collect();
+	let rc: Vec<char> = c.iter().rev().copied().collect();
+	let mut parts = r_split(&rs, &rc, max);
+	parts.reverse();
+	parts.into_iter().map(|p| p.into_iter().rev().collect()).collect()
+}
+
+/// all (left to right, non-overlapping) occurrences of `from` replaced by `to`; `from` non-empty
+fn r_replace(s: &[char], from: &[char], to: &[char]) -> Vec<char> {
+	let mut out = vec![];
+	let mut i = 0;
+	while i < s.len() {
+		if i + from.len() <= s.len() && s[i..i + from.len()] == *from {
+			out.extend_from_slice(to);
+			i += from.len();
+		} else {
+			out.push(s[i]);
+			i += 1;
+		}
+	}
+	out
+}
+
+/// indexes of all occurrences (overlapping ones included) of `pat` in `s`; `pat` non-empty
+fn r_find(pat: &[char], s: &[char]) -> Vec<usize> {
+	if pat.len() > s.len() {
+		return vec![];
+	}
+	(0..=s.len() - pat.len()).filter(|i| s[*i..*i + pat.len()] == *pat).collect()
+}
+
+fn r_strip(s: &[char], set: &[char], left: bool, right: bool) -> Vec<char> {
+	let mut a = 0;
+	let mut b = s.len();
+	if left {
+		while a < b && set.contains(&s[a]) {
+			a += 1;
+		}
+	}
+	if right {
+		while b > a && set.contains(&s[b - 1]) {
+			b -= 1;
+		}
+	}
+	s[a..b].to_vec()
+}
+
+const TRIM_SET: &[char] = &[' ', '\t', '\n', '\u{c}', '\r', '\u{85}', '\u{a0}'];
+
+fn r_upper(s: &[char]) -> Vec<char> {
+	s.iter().map(|c| if ('a'..='z').contains(c) { (*c as u8 - 32) as char } else { *c }).collect()
+}
+fn r_lower(s: &[char]) -> Vec<char> {
+	s.iter().map(|c| if ('A'..='Z').contains(c) { (*c as u8 + 32) as char } else { *c }).collect()
+}
+
+fn r_escape_bash(s: &[char]) -> String {
+	let mut o = String::from("'");
+	for c in s {
+		if *c == '\'' {
+			o.push_str("'\"'\"'");
+		} else {
+			o.push(*c);
+		}
+	}
+	o.push('\'');
+	o
+}
+fn r_escape_dollars(s: &[char]) -> String {
+	let mut o = String::new();
+	for c in s {
+		if *c == '$' {
+			o.push_str("$$");
+		} else {
+			o.push(*c);
+		}
+	}
+	o
+}
+fn r_escape_xml(s: &[char]) -> String {
+	let mut o = String::new();
+	for c in s {
+		match c {
+			'<' => o.push_str("&lt;"),
+			'>' => o.push_str("&gt;"),
+			'&' => o.push_str("&amp;"),
+			'"' => o.push_str("&quot;"),
+			'\'' => o.push_str("&apos;"),
+			c => o.push(*c),
+		}
+	}
+	o
+}
+
+/// documented number parsers: optional single '-' (decimal only), then one or more digits of the base
+/// Ok(None): outcome left open by the documentation
+fn r_parse_num(s: &str, base: u32) -> Result<Option<(bool, u128)>, ()> {
+	let (neg, digits) = match s.strip_prefix('-') {
+		Some(rest) if base == 10 => (true, rest),
+		_ => (false, s),
+	};
+	if base == 10 && s.starts_with('+') && s.len() > 1 && s[1..].chars().all(|c| c.is_ascii_digit()) {
+		// "signed decimal integer": an explicit plus sign is neither promised nor excluded
+		return Ok(None);
+	}
+	if digits.is_empty() {
+		return Err(());
+	}
+	let mut v: u128 = 0;
+	for c in digits.chars() {
+		let d = match c {
+			'0'..='9' => c as u32 - '0' as u32,
+			'a'..='f' => c as u32 - 'a' as u32 + 10,
+			'A'..='F' => c as u32 - 'A' as u32 + 10,
+			_ => return Err(()),
+		};
+		if d >= base {
+			return Err(());
+		}
+		v = v.checked_mul(base as u128).and_then(|x| x.checked_add(d as u128)).ok_or(())?;
+	}
+	Ok(Some((neg, v)))
+}
+
+fn want_num(s: &str, base: u32) -> Want {
+	match r_parse_num(s, base) {
+		Err(()) => Want::Err,
+		Ok(None) => Want::Any,
+		Ok(Some((neg, v))) => {
+			let f = if neg { -(v as f64) } else { v as f64 };
+			if v <= 1u128 << 53 {
+				Want::Is(J::Num(f))
+			} else {
+				// beyond 2^53 the documentation does not say how the integer is rounded: a few ulps are tolerated
+				Want::Approx(f, 8)
+			}
+		}
+	}
+}
+
+/// own base64 encoder (RFC 4648, padded)
+fn my_b64(b: &[u8]) -> String {
+	const T: &[u8; 64] = b"ABCDEFGHIJKLMNOPQRSTUVWXYZabcdefghijklmnopqrstuvwxyz0123456789+/";
+	let mut o = String::new();
+	for ch in b.chunks(3) {
+		let n = (ch[0] as u32) << 16 | (*ch.get(1).unwrap_or(&0) as u32) << 8 | *ch.get(2).unwrap_or(&0) as u32;
+		o.push(T[(n >> 18) as usize & 63] as char);
+		o.push(T[(n >> 12) as usize & 63] as char);
+		o.push(if ch.len() > 1 { T[(n >> 6) as usize & 63] as char } else { '=' });
+		o.push(if ch.len() > 2 { T[n as usize & 63] as char } else { '=' });
+	}
+	o
+}
+
+/// strict decoder of one UTF-8 encoded scalar (no overlong forms, no surrogates, at most U+10FFFF)
+fn utf8_one(b: &[u8]) -> Option<(char, usize)> {
+	let cont = |i: usize, lo: u8, hi: u8| b.get(i).copied().filter(|x| (lo..=hi).contains(x)).map(|x| (x & 0x3f) as u32);
+	let b0 = *b.first()?;
+	let (cp, n) = match b0 {
+		0..=0x7f => (b0 as u32, 1),
+		0xc2..=0xdf => ((b0 as u32 & 0x1f) << 6 | cont(1, 0x80, 0xbf)?, 2),
+		0xe0..=0xef => {
+			let (lo, hi) = match b0 {
+				0xe0 => (0xa0, 0xbf),
+				0xed => (0x80, 0x9f),
+				_ => (0x80, 0xbf),
+			};
+			((b0 as u32 & 0x0f) << 12 | cont(1, lo, hi)? << 6 | cont(2, 0x80, 0xbf)?, 3)
+		}
+		0xf0..=0xf4 => {
+			let (lo, hi) = match b0 {
+				0xf0 => (0x90, 0xbf),
+				0xf4 => (0x80, 0x8f),
+				_ => (0x80, 0xbf),
+			};
+			((b0 as u32 & 0x07) << 18 | cont(1, lo, hi)? << 12 | cont(2, 0x80, 0xbf)? << 6 | cont(3, 0x80, 0xbf)?, 4)
+		}
+		_ => return None,
+	};
+	char::from_u32(cp).map(|c| (c, n))
+}
+/// decoding that substitutes U+FFFD for every byte that does not start a valid sequence (the reference
+/// implementations' convention; the sidecar supplies the "maximal subpart" convention)
+fn utf8_per_byte_replace(b: &[u8]) -> String {
+	let mut o = String::new();
+	let mut i = 0;
+	while i < b.len() {
+		match utf8_one(&b[i..]) {
+			Some((c, n)) => {
+				o.push(c);
+				i += n;
+			}
+			None => {
+				o.push('\u{fffd}');
+				i += 1;
+			}
+		}
+	}
+	o
+}
+
+// ---------------------------------------------------------------------------------------------------------------
+// generators of arguments
+// ---------------------------------------------------------------------------------------------------------------
+
+pub struct Cfg {
+	/// longest generated string (code points)
+	maxlen: usize,
+}
+
+const ASCII: &[char] = &['a', 'b', 'A', 'z', ' ', ',', '%', '\n', '\t', '\'', '"', '$', '<', '&', '>', '\\', 'Z', '0', '/'];
+const WIDE: &[char] = &['é', 'ß', '漢', '😀', '\u{301}', '\u{a0}', '\u{85}', 'É'];
+const CTL: &[char] = &['\r', '\u{8}', '\u{c}', '\u{1}', '\u{1f}', '\u{7f}', '\u{0}'];
+const EDGE: &[char] = &['@', '[', '`', '{', 'Z', 'z', 'A', 'a', 'm', 'M'];
+
+fn gen_char(src: &mut Src) -> char {
+	if src.chance(1, 2) {
+		*src.pick(WIDE)
+	} else {
+		*src.pick(ASCII)
+	}
+}
+
+fn gen_len(cfg: &Cfg, src: &mut Src, max: usize) -> usize {
+	let max = max.min(cfg.maxlen);
+	if cfg.maxlen > 12 && max > 12 && !src.chance(1, 5) {
+		src.below(13)
+	} else {
+		src.below(max + 1)
+	}
+}
+
+/// string of up to `max` code points; either over the whole alphabet or over a tiny one (repeating, overlapping)
+fn gen_str_x(cfg: &Cfg, src: &mut Src, max: usize, extra: &[char]) -> Vec<char> {
+	let n = gen_len(cfg, src, max);
+	let one = |src: &mut Src| {
+		if !extra.is_empty() && src.chance(1, 4) {
+			*src.pick(extra)
+		} else {
+			gen_char(src)
+		}
+	};
+	if src.chance(2, 5) {
+		let k = 1 + src.below(2);
+		let small: Vec<char> = (0..k).map(|_| one(src)).collect();
+		(0..n).map(|_| *src.pick(&small)).collect()
+	} else {
+		(0..n)
+			.map(|i| {
+				if i == 0 && src.chance(1, 2) {
+					*src.pick(WIDE)
+				} else {
+					one(src)
+				}
+			})
+			.collect()
+	}
+}
+fn gen_str(cfg: &Cfg, src: &mut Src, max: usize) -> Vec<char> {
+	gen_str_x(cfg, src, max, &[])
+}
+
+/// pattern / separator related to the subject: substring, altered substring, the subject, longer than the subject,
+/// short random, empty
+fn gen_pat(src: &mut Src, s: &[char]) -> Vec<char> {
+	let n = s.len();
+	match src.weighted(&[6, 3, 1, 1, 1, 2]) {
+		0 | 5 if n == 0 => vec![gen_char(src)],
+		0 => {
+			let a = src.below(n);
+			let l = 1 + src.below((n - a).min(3));
+			s[a..a + l].to_vec()
+		}
+		1 => (0..1 + src.below(2)).map(|_| gen_char(src)).collect(),
+		2 => vec![],
+		3 => s.to_vec(),
+		4 => {
+			let mut v = s.to_vec();
+			v.push(gen_char(src));
+			v
+		}
+		_ => {
+			let a = src.below(n);
+			let l = 1 + src.below((n - a).min(3));
+			let mut v = s[a..a + l].to_vec();
+			*v.last_mut().unwrap() = gen_char(src);
+			v
+		}
+	}
+}
+
+/// offset / count: 0..n+3, rarely -1 or fractional
+fn gen_off(src: &mut Src, n: usize) -> NumArg {
+	match src.weighted(&[14, 1, 1]) {
+		0 => NumArg::Int(src.below(n + 4) as i64),
+		1 => NumArg::Int(-1),
+		_ => NumArg::Frac(src.below(n + 2) as f64 + 0.5),
+	}
+}
+
+/// maxsplits in {-1, 0, 1, 2, len, len+1}, rarely -2 or fractional
+fn gen_maxsplits(src: &mut Src, n: usize) -> NumArg {
+	match src.weighted(&[3, 3, 3, 3, 2, 2, 1, 1]) {
+		0 => NumArg::Int(-1),
+		1 => NumArg::Int(0),
+		2 => NumArg::Int(1),
+		3 => NumArg::Int(2),
+		4 => NumArg::Int(n as i64),
+		5 => NumArg::Int(n as i64 + 1),
+		6 => NumArg::Int(-2),
+		_ => NumArg::Frac(1.5),
+	}
+}
+
+// ---------------------------------------------------------------------------------------------------------------
+// generators of questions, one per function
+// ---------------------------------------------------------------------------------------------------------------
+
+type Gen = fn(&Cfg, &mut Src, &mut Vec<Q>);
+
+fn g_length(cfg: &Cfg, src: &mut Src, out: &mut Vec<Q>) {
+	let s = gen_str(cfg, src, 64);
+	out.push(q("length", format!("std.length({})", litc(&s)), Want::Is(jnum(s.len())), is_wide(&s), Some(&s)));
+}
+
+fn g_substr(cfg: &Cfg, src: &mut Src, out: &mut Vec<Q>) {
+	let s = gen_str(cfg, src, 64);
+	let from = gen_off(src, s.len());
+	let len = gen_off(src, s.len());
+	let want = match (from.nat(), len.nat()) {
+		(Some(f), Some(l)) => Want::Is(jstr(&r_substr(&s, f, l))),
+		// negative and fractional offsets / lengths are not documented
+		_ => Want::Any,
+	};
+	let beyond = from.nat().zip(len.nat()).is_some_and(|(f, l)| f + l >= s.len());
+	out.push(q("substr", format!("std.substr({}, {}, {})", litc(&s), from.lit(), len.lit()), want, is_wide(&s) || beyond, Some(&s)));
+}
+
+fn g_split(cfg: &Cfg, src: &mut Src, out: &mut Vec<Q>) {
+	let s = gen_str(cfg, src, 64);
+	let c = gen_pat(src, &s);
+	let want = if c.is_empty() { Want::Any } else { Want::Is(jstrs(&r_split(&s, &c, None))) };
+	out.push(q("split", format!("std.split({}, {})", litc(&s), litc(&c)), want, is_wide(&s) || is_wide(&c), Some(&s)));
+}
+
+fn split_limit_q(cfg: &Cfg, src: &mut Src, out: &mut Vec<Q>, right: bool) {
+	let s = gen_str(cfg, src, 64);
+	let c = gen_pat(src, &s);
+	let m = gen_maxsplits(src, s.len());
+	let want = if c.is_empty() {
+		Want::Any
+	} else {
+		match m {
+			NumArg::Int(-1) if right => {
+				// "-1 means unlimited" and "from right to left": with overlapping separators the two scanning
+				// directions differ and the documentation does not say which one an unlimited split uses
+				let a = jstrs(&r_split(&s, &c, None));
+				let b = jstrs(&r_split_r(&s, &c, None));
+				if a.same(&b) {
+					Want::Is(a)
+				} else {
+					Want::OneOf(vec![a, b])
+				}
+			}
+			NumArg::Int(-1) => Want::Is(jstrs(&r_split(&s, &c, None))),
+			NumArg::Int(k) if k >= 0 => Want::Is(jstrs(&if right { r_split_r(&s, &c, Some(k as usize)) } else { r_split(&s, &c, Some(k as usize)) })),
+			_ => Want::Any,
+		}
+	};
+	let (name, f): (&'static str, &str) = if right { ("splitLimitR", "std.splitLimitR") } else { ("splitLimit", "std.splitLimit") };
+	out.push(q(name, format!("{f}({}, {}, {})", litc(&s), litc(&c), m.lit()), want, is_wide(&s) || is_wide(&c), Some(&s)));
+}
+fn g_split_limit(cfg: &Cfg, src: &mut Src, out: &mut Vec<Q>) {
+	split_limit_q(cfg, src, out, false)
+}
+fn g_split_limit_r(cfg: &Cfg, src: &mut Src, out: &mut Vec<Q>) {
+	split_limit_q(cfg, src, out, true)
+}
+
+fn g_str_replace(cfg: &Cfg, src: &mut Src, out: &mut Vec<Q>) {
+	let s = gen_str(cfg, src, 64);
+	let from = gen_pat(src, &s);
+	let to = match src.weighted(&[3, 1, 1, 1]) {
+		0 => gen_str(cfg, src, 3),
+		1 => vec![],
+		// replacement that contains the pattern: must not be scanned again
+		2 => [from.clone(), from.clone()].concat(),
+		_ => [vec![gen_char(src)], from.clone()].concat(),
+	};
+	let want = if from.is_empty() { Want::Any } else { Want::Is(jstr(&r_replace(&s, &from, &to))) };
+	out.push(q("strReplace", format!("std.strReplace({}, {}, {})", litc(&s), litc(&from), litc(&to)), want, is_wide(&s) || is_wide(&from) || is_wide(&to), Some(&s)));
+}
+
+fn g_find_substr(cfg: &Cfg, src: &mut Src, out: &mut Vec<Q>) {
+	let s = gen_str(cfg, src, 64);
+	let pat = gen_pat(src, &s);
+	let want = if pat.is_empty() { Want::Any } else { Want::Is(J::Arr(r_find(&pat, &s).into_iter().map(jnum).collect())) };
+	out.push(q("findSubstr", format!("std.findSubstr({}, {})", litc(&pat), litc(&s)), want, is_wide(&s) || pat.len() >= s.len(), Some(&s)));
+}
+
+fn affix_q(cfg: &Cfg, src: &mut Src, out: &mut Vec<Q>, end: bool) {
+	let a = gen_str(cfg, src, 64);
+	let n = a.len();
+	let b = match src.weighted(&[4, 2, 1, 1]) {
+		0 => {
+			let l = src.below(n + 1);
+			if end {
+				a[n - l..].to_vec()
+			} else {
+				a[..l].to_vec()
+			}
+		}
+		1 => gen_pat(src, &a),
+		2 => {
+			// longer than the subject
+			let mut v = a.clone();
+			if end {
+				v.insert(0, gen_char(src));
+			} else {
+				v.push(gen_char(src));
+			}
+			v
+		}
+		_ => {
+			// an affix of the other end
+			let l = src.below(n + 1);
+			if end {
+				a[..l].to_vec()
+			} else {
+				a[n - l..].to_vec()
+			}
+		}
+	};
+	let r = if end { a.len() >= b.len() && a[a.len() - b.len()..] == b[..] } else { a.len() >= b.len() && a[..b.len()] == b[..] };
+	let (name, f): (&'static str, &str) = if end { ("endsWith", "std.endsWith") } else { ("startsWith", "std.startsWith") };
+	out.push(q(name, format!("{f}({}, {})", litc(&a), litc(&b)), Want::Is(J::Bool(r)), is_wide(&a) || is_wide(&b) || b.len() >= a.len(), Some(&a)));
+}
+fn g_starts_with(cfg: &Cfg, src: &mut Src, out: &mut Vec<Q>) {
+	affix_q(cfg, src, out, false)
+}
+fn g_ends_with(cfg: &Cfg, src: &mut Src, out: &mut Vec<Q>) {
+	affix_q(cfg, src, out, true)
+}
+
+fn strip_q(cfg: &Cfg, src: &mut Src, out: &mut Vec<Q>, which: u8) {
+	let s = gen_str(cfg, src, 64);
+	let n = s.len();
+	let mut set: Vec<char> = vec![];
+	match src.weighted(&[5, 2, 1]) {
+		0 if n > 0 => {
+			// characters taken from the ends of the subject (so that something is stripped) plus maybe a stranger
+			for _ in 0..1 + src.below(3) {
+				let c = match src.below(4) {
+					0 => s[0],
+					1 => s[n - 1],
+					2 => s[src.below(n)],
+					_ => gen_char(src),
+				};
+				set.push(c);
+			}
+		}
+		0 | 1 => {
+			for _ in 0..1 + src.below(3) {
+				set.push(gen_char(src));
+			}
+		}
+		_ => {}
+	}
+	let (name, f, l, r): (&'static str, &str, bool, bool) = match which {
+		0 => ("stripChars", "std.stripChars", true, true),
+		1 => ("lstripChars", "std.lstripChars", true, false),
+		_ => ("rstripChars", "std.rstripChars", false, true),
+	};
+	let want = Want::Is(jstr(&r_strip(&s, &set, l, r)));
+	out.push(q(name, format!("{f}({}, {})", litc(&s), litc(&set)), want, is_wide(&s) || is_wide(&set), Some(&s)));
+}
+fn g_strip_chars(cfg: &Cfg, src: &mut Src, out: &mut Vec<Q>) {
+	strip_q(cfg, src, out, 0)
+}
+fn g_lstrip_chars(cfg: &Cfg, src: &mut Src, out: &mut Vec<Q>) {
+	strip_q(cfg, src, out, 1)
+}
+fn g_rstrip_chars(cfg: &Cfg, src: &mut Src, out: &mut Vec<Q>) {
+	strip_q(cfg, src, out, 2)
+}
+
+fn g_trim(cfg: &Cfg, src: &mut Src, out: &mut Vec<Q>) {
+	let ws = |src: &mut Src| -> Vec<char> { (0..src.below(4)).map(|_| *src.pick(TRIM_SET)).collect() };
+	let mut s = ws(src);
+	let mut core = gen_str(cfg, src, 8);
+	if src.chance(1, 3) && !core.is_empty() {
+		// white space inside stays
+		let at = src.below(core.len());
+		core.insert(at, *src.pick(TRIM_SET));
+	}
+	s.extend(core);
+	s.extend(ws(src));
+	let want = Want::Is(jstr(&r_strip(&s, TRIM_SET, true, true)));
+	out.push(q("trim", format!("std.trim({})", litc(&s)), want, is_wide(&s), Some(&s)));
+}
+
+fn g_ascii_upper(cfg: &Cfg, src: &mut Src, out: &mut Vec<Q>) {
+	let s = gen_str_x(cfg, src, 64, EDGE);
+	out.push(q("asciiUpper", format!("std.asciiUpper({})", litc(&s)), Want::Is(jstr(&r_upper(&s))), is_wide(&s), Some(&s)));
+}
+fn g_ascii_lower(cfg: &Cfg, src: &mut Src, out: &mut Vec<Q>) {
+	let s = gen_str_x(cfg, src, 64, EDGE);
+	out.push(q("asciiLower", format!("std.asciiLower({})", litc(&s)), Want::Is(jstr(&r_lower(&s))), is_wide(&s), Some(&s)));
+}
+
+fn g_string_chars(cfg: &Cfg, src: &mut Src, out: &mut Vec<Q>) {
+	let s = gen_str(cfg, src, 64);
+	let want = Want::Is(J::Arr(s.iter().map(|c| J::Str(c.to_string())).collect()));
+	out.push(q("stringChars", format!("std.stringChars({})", litc(&s)), want, is_wide(&s), Some(&s)));
+}
+
+const CODEPOINTS: &[u32] = &[0x61, 0, 0x7f, 0x80, 0xff, 0x100, 0x7ff, 0x800, 0xd7ff, 0xe000, 0xfffd, 0xffff, 0x10000, 0x1f600, 0x10ffff];
+
+fn gen_scalar(src: &mut Src) -> char {
+	match src.weighted(&[2, 3, 1]) {
+		0 => gen_char(src),
+		1 => char::from_u32(*src.pick(CODEPOINTS)).unwrap(),
+		_ => char::from_u32(src.below(0x110000) as u32).unwrap_or('\u{e000}'),
+	}
+}
+
+fn g_codepoint(_cfg: &Cfg, src: &mut Src, out: &mut Vec<Q>) {
+	if src.chance(1, 10) {
+		// "the given single-character string": other lengths are not documented
+		let s: Vec<char> = if src.chance(1, 2) { vec![] } else { vec![gen_char(src), gen_char(src)] };
+		out.push(q("codepoint", format!("std.codepoint({})", litc(&s)), Want::Any, false, None));
+		return;
+	}
+	let c = gen_scalar(src);
+	out.push(q("codepoint", format!("std.codepoint({})", litc(&[c])), Want::Is(J::Num(c as u32 as f64)), (c as u32) > 127, None));
+}
+
+fn g_char(_cfg: &Cfg, src: &mut Src, out: &mut Vec<Q>) {
+	let (arg, want, nt): (String, Want, bool) = match src.weighted(&[6, 3, 2, 1]) {
+		0 => {
+			let c = gen_scalar(src);
+			(format!("{}", c as u32), Want::Is(J::Str(c.to_string())), (c as u32) > 127)
+		}
+		1 => {
+			// no string consists of one surrogate code point: an error (or the replacement character) is all that fits
+			let n = *src.pick(&[0xd800u32, 0xdbff, 0xdc00, 0xdfff, 0xd912]);
+			(format!("{n}"), Want::ErrOr(vec![J::Str("\u{fffd}".to_owned())]), true)
+		}
+		2 => {
+			// there is no such code point
+			let a = *src.pick(&["1114112", "1114113", "4294967295", "4294967296", "4294967393", "(-1)", "(-97)", "1e15"]);
+			(a.to_owned(), Want::Err, true)
+		}
+		_ => {
+			let a = *src.pick(&["1.5", "97.5", "(-0.5)", "0.25"]);
+			(a.to_owned(), Want::Any, false)
+		}
+	};
+	out.push(q("char", format!("std.char({arg})"), want, nt, None));
+}
+
+fn g_equals_ignore_case(cfg: &Cfg, src: &mut Src, out: &mut Vec<Q>) {
+	let a = gen_str_x(cfg, src, 64, EDGE);
+	let mut b = a.clone();
+	match src.weighted(&[4, 2, 2, 1, 1]) {
+		0 => {
+			// flip the case of some ASCII letters
+			for c in b.iter_mut() {
+				if src.chance(1, 2) {
+					if c.is_ascii_lowercase() {
+						*c = c.to_ascii_uppercase();
+					} else if c.is_ascii_uppercase() {
+						*c = c.to_ascii_lowercase();
+					}
+				}
+			}
+		}
+		1 if !b.is_empty() => {
+			let i = src.below(b.len());
+			b[i] = if src.chance(1, 2) { *src.pick(EDGE) } else { gen_char(src) };
+		}
+		2 if !b.is_empty() => {
+			// neighbours of letters at distance 32 that are not letters: '@'/'`', '['/'{'
+			let i = src.below(b.len());
+			b[i] = match b[i] {
+				'@' => '`',
+				'`' => '@',
+				'[' => '{',
+				'{' => '[',
+				'é' => 'É',
+				'É' => 'é',
+				c => c,
+			};
+		}
+		3 => b.push(gen_char(src)),
+		1 | 2 => {}
+		_ => b = gen_str_x(cfg, src, 64, EDGE),
+	}
+	let ascii_eq = r_lower(&a) == r_lower(&b);
+	let uni_eq = st(&a).to_lowercase() == st(&b).to_lowercase() || st(&a).to_uppercase() == st(&b).to_uppercase();
+	// "case insensitive comparison": ASCII folding is certain, folding of other letters is not pinned down
+	let want = if ascii_eq {
+		Want::Is(J::Bool(true))
+	} else if uni_eq {
+		Want::Any
+	} else {
+		Want::Is(J::Bool(false))
+	};
+	out.push(q("equalsIgnoreCase", format!("std.equalsIgnoreCase({}, {})", litc(&a), litc(&b)), want, is_wide(&a) || is_wide(&b), Some(&a)));
+}
+
+fn g_is_empty(cfg: &Cfg, src: &mut Src, out: &mut Vec<Q>) {
+	let s = match src.weighted(&[2, 2, 3]) {
+		0 => vec![],
+		1 => vec![*src.pick(&[' ', '\u{301}', '\u{0}', '\n', '\u{a0}', '😀', 'a'])],
+		_ => gen_str(cfg, src, 4),
+	};
+	out.push(q("isEmpty", format!("std.isEmpty({})", litc(&s)), Want::Is(J::Bool(s.is_empty())), is_wide(&s) || s.is_empty(), None));
+}
+
+fn g_escape_json(cfg: &Cfg, src: &mut Src, out: &mut Vec<Q>) {
+	let s = gen_str_x(cfg, src, 64, CTL);
+	out.push(q("escapeStringJson", format!("std.escapeStringJson({})", litc(&s)), Want::JsonLit(st(&s)), true, Some(&s)));
+}
+fn g_escape_python(cfg: &Cfg, src: &mut Src, out: &mut Vec<Q>) {
+	let s = gen_str_x(cfg, src, 64, CTL);
+	out.push(q("escapeStringPython", format!("std.escapeStringPython({})", litc(&s)), Want::JsonLit(st(&s)), true, Some(&s)));
+	// "This is an alias for std.escapeStringJson"
+	out.push(q("escapeStringPython", format!("std.escapeStringPython({0}) == std.escapeStringJson({0})", litc(&s)), Want::Is(J::Bool(true)), true, Some(&s)));
+}
+fn g_escape_bash(cfg: &Cfg, src: &mut Src, out: &mut Vec<Q>) {
+	let s = gen_str_x(cfg, src, 64, &['\'', '\'', '"', '\\']);
+	out.push(q("escapeStringBash", format!("std.escapeStringBash({})", litc(&s)), Want::Is(J::Str(r_escape_bash(&s))), true, Some(&s)));
+}
+fn g_escape_dollars(cfg: &Cfg, src: &mut Src, out: &mut Vec<Q>) {
+	let s = gen_str_x(cfg, src, 64, &['$', '$', '%']);
+	out.push(q("escapeStringDollars", format!("std.escapeStringDollars({})", litc(&s)), Want::Is(J::Str(r_escape_dollars(&s))), true, Some(&s)));
+}
+fn g_escape_xml(cfg: &Cfg, src: &mut Src, out: &mut Vec<Q>) {
+	let s = gen_str_x(cfg, src, 64, &['<', '>', '&', '"', '\'', ';']);
+	out.push(q("escapeStringXML", format!("std.escapeStringXML({})", litc(&s)), Want::Is(J::Str(r_escape_xml(&s))), true, Some(&s)));
+}
+
+// ---- number parsers -------------------------------------------------------------------------------------------
+
+fn to_base(mut v: u128, base: u32, upper: bool) -> String {
+	if v == 0 {
+		return "0".to_owned();
+	}
+	let mut d = vec![];
+	while v > 0 {
+		let c = char::from_digit((v % base as u128) as u32, base).unwrap();
+		d.push(if upper { c.to_ascii_uppercase() } else { c });
+		v /= base as u128;
+	}
+	d.iter().rev().collect()
+}
+
+fn gen_digit(src: &mut Src, base: u32) -> char {
+	let c = char::from_digit(src.below(base as usize) as u32, base).unwrap();
+	if src.chance(1, 2) {
+		c.to_ascii_uppercase()
+	} else {
+		c
+	}
+}
+
+const BOUNDARY: &[u128] = &[
+	(1 << 53) - 1,
+	1 << 53,
+	(1 << 53) + 1,
+	(1 << 53) + 2,
+	(1 << 53) + 3,
+	(1 << 54) + 2,
+	(1 << 63) - 1,
+	1 << 63,
+	(1 << 64) - 1,
+	1 << 64,
+	(1 << 64) + 1,
+	1_000_000_000_000_000,
+	9_999_999_999_999_999,
+	99_999_999_999_999_999_999,
+	(1 << 31) - 1,
+	1 << 32,
+];
+
+fn gen_numstr(src: &mut Src, base: u32) -> (String, bool) {
+	let invalid: &[char] = match base {
+		8 => &['8', '9', 'a', '-', ' ', ':', '/', '٣', '+', '.'],
+		10 => &['a', ':', '/', ' ', '+', '.', 'e', '٣', '５', '-', 'A', '\n'],
+		_ => &['g', 'G', ':', ';', '?', '@', '/', '`', 'x', ' ', '-', '٣', '+', '.'],
+	};
+	let digits = |src: &mut Src, n: usize| -> String { (0..n).map(|_| gen_digit(src, base)).collect() };
+	let mut nontrivial = false;
+	let mut s = match src.weighted(&[5, 5, 1, 1, 2, 4, 3, 1]) {
+		0 => {
+			let n = 1 + src.below(6);
+			digits(src, n)
+		}
+		1 => {
+			// one character that is not a digit of the base, at any position
+			nontrivial = true;
+			let n = src.below(5);
+			let mut v: Vec<char> = digits(src, n).chars().collect();
+			let at = src.below(v.len() + 1);
+			v.insert(at, *src.pick(invalid));
+			v.into_iter().collect()
+		}
+		2 => String::new(),
+		3 => "-".to_owned(),
+		4 => {
+			let z = 1 + src.below(3);
+			let n = src.below(4);
+			format!("{}{}", "0".repeat(z), digits(src, n))
+		}
+		5 => {
+			nontrivial = true;
+			to_base(*src.pick(BOUNDARY), base, src.chance(1, 2))
+		}
+		6 => {
+			nontrivial = true;
+			let n = match base {
+				8 => 17 + src.below(5),
+				10 => 15 + src.below(6),
+				_ => 12 + src.below(6),
+			};
+			digits(src, n)
+		}
+		_ => {
+			nontrivial = true;
+			(*src.pick(&["--1", "-+1", "+1", "+", " 1", "1 ", "0x1F", "0o17", "1_000", "1.0", "1e3", "-0", "١٢", "1-"])).to_owned()
+		}
+	};
+	if src.chance(1, 4) && !s.starts_with('-') {
+		s.insert(0, '-');
+	}
+	(s, nontrivial)
+}
+
+fn parse_q(src: &mut Src, out: &mut Vec<Q>, base: u32) {
+	let (s, nt) = gen_numstr(src, base);
+	let (name, f): (&'static str, &str) = match base {
+		8 => ("parseOctal", "std.parseOctal"),
+		10 => ("parseInt", "std.parseInt"),
+		_ => ("parseHex", "std.parseHex"),
+	};
+	let want = want_num(&s, base);
+	let nt = nt || matches!(want, Want::Err);
+	let mut qu = q(name, format!("{f}({})", lit(&s)), want, nt, None);
+	if base == 16 && matches!(qu.want, Want::Err) && s.chars().any(|c| (':'..='?').contains(&c)) {
+		// signature of the recorded finding: the six characters after '9' read as the digits a..f
+		let mapped: String = s.chars().map(|c| if (':'..='?').contains(&c) { (b'a' + (c as u8 - b':')) as char } else { c }).collect();
+		let alt = want_num(&mapped, 16);
+		if !matches!(alt, Want::Err) {
+			qu = qu.or_known(K_PARSE_HEX, alt);
+		}
+	}
+	out.push(qu);
+}
+fn g_parse_int(_cfg: &Cfg, src: &mut Src, out: &mut Vec<Q>) {
+	parse_q(src, out, 10)
+}
+fn g_parse_octal(_cfg: &Cfg, src: &mut Src, out: &mut Vec<Q>) {
+	parse_q(src, out, 8)
+}
+fn g_parse_hex(_cfg: &Cfg, src: &mut Src, out: &mut Vec<Q>) {
+	parse_q(src, out, 16)
+}
+
+// ---- JSON / YAML ----------------------------------------------------------------------------------------------
+
+fn json_ws(src: &mut Src, yaml: bool, o: &mut String) {
+	match src.weighted(&[8, 3, 1, 1]) {
+		0 => {}
+		1 => o.push(' '),
+		2 if !yaml => o.push('\n'),
+		3 if !yaml => o.push_str("\t\r\n "),
+		_ => o.push(' '),
+	}
+}
+
+fn json_string(cfg: &Cfg, src: &mut Src, yaml: bool, o: &mut String) {
+	let s = gen_str_x(cfg, src, 6, CTL);
+	o.push('"');
+	for c in s {
+		let cp = c as u32;
+		let must = c == '"' || c == '\\' || cp < 0x20 || (yaml && cp == 0x7f);
+		let short = match c {
+			'"' => Some("\\\""),
+			'\\' => Some("\\\\"),
+			'\n' => Some("\\n"),
+			'\t' => Some("\\t"),
+			'\r' => Some("\\r"),
+			'\u{8}' => Some("\\b"),
+			'\u{c}' => Some("\\f"),
+			'/' => Some("\\/"),
+			_ => None,
+		};
+		let mode = src.below(4);
+		if let (Some(e), true) = (short, must || mode == 1) {
+			if mode != 2 {
+				o.push_str(e);
+				continue;
+			}
+		}
+		if must || mode == 3 {
+			if cp < 0x10000 {
+				let h = format!("{cp:04x}");
+				o.push_str("\\u");
+				o.push_str(&if src.chance(1, 2) { h.to_uppercase() } else { h });
+				continue;
+			} else if !yaml {
+				let v = cp - 0x10000;
+				o.push_str(&format!("\\u{:04x}\\u{:04X}", 0xd800 + (v >> 10), 0xdc00 + (v & 0x3ff)));
+				continue;
+			}
+		}
+		o.push(c);
+	}
+	o.push('"');
+}
+
+fn json_number(src: &mut Src, o: &mut String) {
+	o.push_str(*src.pick(&["0", "1", "-0", "7", "12", "-3", "100", "9007199254740993", "-1", "255", "123456789"]));
+	if src.chance(1, 3) {
+		o.push_str(*src.pick(&[".5", ".0", ".25", ".10", ".000001", ".9999999999999999"]));
+	}
+	if src.chance(1, 4) {
+		o.push_str(*src.pick(&["e0", "E2", "e+2", "e-2", "e10", "E-7", "e+0"]));
+	}
+}
+
+fn json_value(cfg: &Cfg, src: &mut Src, yaml: bool, depth: usize, o: &mut String) {
+	let kind = if depth >= 3 { src.weighted(&[1, 1, 1, 3, 3]) } else { src.weighted(&[1, 1, 1, 3, 3, 3, 3]) };
+	match kind {
+		0 => o.push_str("null"),
+		1 => o.push_str("true"),
+		2 => o.push_str("false"),
+		3 => json_number(src, o),
+		4 => json_string(cfg, src, yaml, o),
+		5 => {
+			o.push('[');
+			let n = src.below(4);
+			json_ws(src, yaml, o);
+			for i in 0..n {
+				if i > 0 {
+					o.push(',');
+					json_ws(src, yaml, o);
+				}
+				json_value(cfg, src, yaml, depth + 1, o);
+				json_ws(src, yaml, o);
+			}
+			o.push(']');
+		}
+		_ => {
+			o.push('{');
+			let n = src.below(4);
+			json_ws(src, yaml, o);
+			let mut keys: Vec<String> = vec![];
+			for i in 0..n {
+				if i > 0 {
+					o.push(',');
+					json_ws(src, yaml, o);
+				}
+				let mut k = String::new();
+				json_string(cfg, src, yaml, &mut k);
+				// distinct keys: what a duplicate means is not documented
+				let dup = |k: &str, keys: &[String]| {
+					let v = json::parse(k).ok();
+					keys.iter().any(|x| json::parse(x).ok() == v)
+				};
+				while dup(&k, &keys) {
+					k.insert(k.len() - 1, char::from(b'0' + i as u8));
+				}
+				o.push_str(&k);
+				keys.push(k);
+				json_ws(src, yaml, o);
+				o.push(':');
+				json_ws(src, yaml, o);
+				json_value(cfg, src, yaml, depth + 1, o);
+				json_ws(src, yaml, o);
+			}
+			o.push('}');
+		}
+	}
+}
+
+fn has_dup_keys(v: &J) -> bool {
+	let mut dup = false;
+	v.walk(&mut |x| {
+		if let J::Obj(f) = x {
+			for (i, (k, _)) in f.iter().enumerate() {
+				if f[..i].iter().any(|(k2, _)| k2 == k) {
+					dup = true;
+				}
+			}
+		}
+	});
+	dup
+}
+
+/// what the strict RFC 8259 reading of the text gives
+fn want_json(text: &str) -> Want {
+	match json::parse(text) {
+		Ok(v) if has_dup_keys(&v) => Want::Any,
+		Ok(v) => Want::Is(v),
+		// representable range and unpaired surrogate escapes: left open
+		Err(e) if e.0.contains("out of range") || e.0.contains("surrogate") => Want::Any,
+		Err(_) => Want::Err,
+	}
+}
+
+fn g_parse_json(cfg: &Cfg, src: &mut Src, out: &mut Vec<Q>) {
+	let mut text = String::new();
+	json_ws(src, false, &mut text);
+	json_value(cfg, src, false, 0, &mut text);
+	json_ws(src, false, &mut text);
+	let mut nt = !text.is_ascii();
+	if src.chance(1, 3) {
+		// one mutation: delete, insert or replace a character
+		nt = true;
+		let mut v: Vec<char> = text.chars().collect();
+		let ins = *src.pick(&['{', '}', '[', ']', '"', ',', ':', '\\', '0', '1', '-', '.', 'e', 't', 'n', 'x', ' ', '\n', '\u{1}', '+', 'é', '\'']);
+		match src.below(3) {
+			0 if !v.is_empty() => {
+				let at = src.below(v.len());
+				v.remove(at);
+			}
+			1 if !v.is_empty() => {
+				let at = src.below(v.len());
+				v[at] = ins;
+			}
+			_ => {
+				let at = src.below(v.len() + 1);
+				v.insert(at, ins);
+			}
+		}
+		text = v.into_iter().collect();
+	}
+	out.push(q("parseJson", format!("std.parseJson({})", lit(&text)), want_json(&text), nt, None));
+}
+
+fn g_parse_yaml(cfg: &Cfg, src: &mut Src, out: &mut Vec<Q>) {
+	// JSON-compatible input only: valid JSON, single line, no raw DEL (not a printable character for YAML)
+	let mut text = String::new();
+	json_value(cfg, src, true, 0, &mut text);
+	let want = match want_json(&text) {
+		Want::Is(v) => Want::Is(v),
+		_ => Want::Any,
+	};
+	out.push(q("parseYaml", format!("std.parseYaml({})", lit(&text)), want, !text.is_ascii() || text.len() > 6, None));
+}
+
+// ---- model-free laws ------------------------------------------------------------------------------------------
+
+fn yes() -> Want {
+	Want::Is(J::Bool(true))
+}
+
+fn g_law_utf8(cfg: &Cfg, src: &mut Src, out: &mut Vec<Q>) {
+	let s = gen_str_x(cfg, src, 64, CTL);
+	out.push(q("law:decodeUTF8-encodeUTF8", format!("std.decodeUTF8(std.encodeUTF8({0})) == {0}", litc(&s)), yes(), is_wide(&s), Some(&s)));
+}
+fn g_law_b64_str(cfg: &Cfg, src: &mut Src, out: &mut Vec<Q>) {
+	let s = gen_str_x(cfg, src, 64, &['\u{e9}', '\u{ff}', '\u{80}', 'a']);
+	// std.base64 is documented for code points 0..255 only: where it refuses, nothing is asked
+	let want = Want::OneOf(vec![J::Bool(true), J::Str("n/a".to_owned())]);
+	out.push(q("law:base64Decode-base64", format!("local e = verif.try(std.base64({0})); if e[0] then std.base64Decode(e[1]) == {0} else \"n/a\"", litc(&s)), want, is_wide(&s), Some(&s)));
+}
+fn gen_plain_bytes(src: &mut Src) -> Vec<u8> {
+	let n = src.below(13);
+	(0..n).map(|_| if src.chance(1, 3) { *src.pick(&[0u8, 255, 128, 127, 61, 43, 47]) } else { src.below(256) as u8 }).collect()
+}
+fn bytes_lit(b: &[u8]) -> String {
+	format!("[{}]", b.iter().map(|x| x.to_string()).collect::<Vec<_>>().join(", "))
+}
+fn g_law_b64_bytes(_cfg: &Cfg, src: &mut Src, out: &mut Vec<Q>) {
+	let b = gen_plain_bytes(src);
+	out.push(q("law:base64DecodeBytes-base64", format!("std.base64DecodeBytes(std.base64({0})) == {0}", bytes_lit(&b)), yes(), b.iter().any(|x| *x > 127), None));
+}
+fn g_law_char_codepoint(_cfg: &Cfg, src: &mut Src, out: &mut Vec<Q>) {
+	let c = gen_scalar(src);
+	if src.chance(1, 2) {
+		out.push(q("law:char-codepoint", format!("std.char(std.codepoint({0})) == {0}", litc(&[c])), yes(), (c as u32) > 127, None));
+	} else {
+		out.push(q("law:char-codepoint", format!("std.codepoint(std.char({0})) == {0}", c as u32), yes(), (c as u32) > 127, None));
+	}
+}
+fn g_law_join_split(cfg: &Cfg, src: &mut Src, out: &mut Vec<Q>) {
+	let s = gen_str(cfg, src, 64);
+	let mut c = gen_pat(src, &s);
+	if c.is_empty() {
+		c.push(gen_char(src));
+	}
+	let expr = match src.below(3) {
+		0 => format!("std.join({1}, std.split({0}, {1})) == {0}", litc(&s), litc(&c)),
+		1 => format!("std.join({1}, std.splitLimit({0}, {1}, {2})) == {0}", litc(&s), litc(&c), src.below(4) as i64 - 1),
+		_ => format!("std.join({1}, std.splitLimitR({0}, {1}, {2})) == {0}", litc(&s), litc(&c), src.below(4) as i64 - 1),
+	};
+	out.push(q("law:join-split", expr, yes(), is_wide(&s) || is_wide(&c), Some(&s)));
+}
+fn g_law_length_chars(cfg: &Cfg, src: &mut Src, out: &mut Vec<Q>) {
+	let s = gen_str(cfg, src, 64);
+	let expr = if src.chance(1, 2) {
+		format!("std.length(std.stringChars({0})) == std.length({0})", litc(&s))
+	} else {
+		format!("std.join(\"\", std.stringChars({0})) == {0}", litc(&s))
+	};
+	out.push(q("law:length-stringChars", expr, yes(), is_wide(&s), Some(&s)));
+}
+
+/// (stage, question class, generator)
+const SPECS: &[(&str, &str, Gen)] = &[
+	("fn-length", "length", g_length),
+	("fn-substr", "substr", g_substr),
+	("fn-split", "split", g_split),
+	("fn-splitLimit", "splitLimit", g_split_limit),
+	("fn-splitLimitR", "splitLimitR", g_split_limit_r),
+	("fn-strReplace", "strReplace", g_str_replace),
+	("fn-findSubstr", "findSubstr", g_find_substr),
+	("fn-startsWith", "startsWith", g_starts_with),
+	("fn-endsWith", "endsWith", g_ends_with),
+	("fn-stripChars", "stripChars", g_strip_chars),
+	("fn-lstripChars", "lstripChars", g_lstrip_chars),
+	("fn-rstripChars", "rstripChars", g_rstrip_chars),
+	("fn-trim", "trim", g_trim),
+	("fn-asciiUpper", "asciiUpper", g_ascii_upper),
+	("fn-asciiLower", "asciiLower", g_ascii_lower),
+	("fn-stringChars", "stringChars", g_string_chars),
+	("fn-codepoint", "codepoint", g_codepoint),
+	("fn-char", "char", g_char),
+	("fn-equalsIgnoreCase", "equalsIgnoreCase", g_equals_ignore_case),
+	("fn-isEmpty", "isEmpty", g_is_empty),
+	("fn-escapeStringJson", "escapeStringJson", g_escape_json),
+	("fn-escapeStringPython", "escapeStringPython", g_escape_python),
+	("fn-escapeStringBash", "escapeStringBash", g_escape_bash),
+	("fn-escapeStringDollars", "escapeStringDollars", g_escape_dollars),
+	("fn-escapeStringXML", "escapeStringXML", g_escape_xml),
+	("fn-parseInt", "parseInt", g_parse_int),
+	("fn-parseOctal", "parseOctal", g_parse_octal),
+	("fn-parseHex", "parseHex", g_parse_hex),
+	("fn-parseJson", "parseJson", g_parse_json),
+	("fn-parseYaml", "parseYaml", g_parse_yaml),
+	("law-decodeUTF8-encodeUTF8", "law:decodeUTF8-encodeUTF8", g_law_utf8),
+	("law-base64Decode-base64", "law:base64Decode-base64", g_law_b64_str),
+	("law-base64DecodeBytes-base64", "law:base64DecodeBytes-base64", g_law_b64_bytes),
+	("law-char-codepoint", "law:char-codepoint", g_law_char_codepoint),
+	("law-join-split", "law:join-split", g_law_join_split),
+	("law-length-stringChars", "law:length-stringChars", g_law_length_chars),
+];
+
+thread_local! {
+	/// set once a case failed on this shard thread: everything after that is shrinking and is not recorded
+	static SHRINKING: Cell<bool> = const { Cell::new(false) };
+}
+
+fn tape_case(run: &Run, cfg: &Cfg, stage: &str, gen: Gen, src: &mut Src) -> CaseOut {
+	let mut qs = vec![];
+	while qs.len() < PER_CASE {
+		gen(cfg, src, &mut qs);
+	}
+	let res = ask(run, &qs);
+	let mut problems = vec![];
+	let mut bad_exprs = vec![];
+	let mut known = None;
+	for (qu, r) in qs.iter().zip(res) {
+		match r {
+			Ans::Ok => {}
+			Ans::Known(id) => known = known.or(Some(id)),
+			Ans::Bad(e) => {
+				problems.push(format!("{}  →  {e}", qu.expr));
+				bad_exprs.push(qu.expr.clone());
+			}
+		}
+	}
+	if problems.is_empty() {
+		if !SHRINKING.with(|s| s.get()) {
+			for qu in qs.iter().skip(1) {
+				run.record(stage, &CaseOut::pass(qu.expr.clone(), qu.nontrivial).classes(classes_of(qu)));
+			}
+		}
+	} else {
+		SHRINKING.with(|s| s.set(true));
+	}
+	verdict_of(qs[0].expr.clone(), &qs[0], problems, known, bad_exprs.join("\n"))
+}
+
+// ---------------------------------------------------------------------------------------------------------------
+// batch stages decided with the Python sidecar (hashes, base64, UTF-8)
+// ---------------------------------------------------------------------------------------------------------------
+
+/// deterministic tape for input `i` of a batch stage (a pure function of seed, stage and index, so that a replay
+/// regenerates the same input)
+fn derived_tape(seed: u64, stage: &str, i: u64, len: usize) -> Vec<u16> {
+	let mut out = Vec::with_capacity(len + 8);
+	let mut k = 0u64;
+	while out.len() < len {
+		let h = hash128(&format!("{seed}|C11|{stage}|{i}|{k}"));
+		for j in 0..8 {
+			out.push((h >> (16 * j)) as u16);
+		}
+		k += 1;
+	}
+	out
+}
+
+/// byte array of 0..12 bytes assembled from valid sequences and every shape of invalid UTF-8
+fn gen_bytes(src: &mut Src) -> Vec<u8> {
+	let mut b: Vec<u8> = vec![];
+	for _ in 0..src.below(7) {
+		match src.weighted(&[2, 3, 2, 2, 1, 1, 1, 2]) {
+			0 => b.push(*src.pick(b"ab z,%\n")),
+			1 => {
+				let mut buf = [0u8; 4];
+				b.extend_from_slice(src.pick(WIDE).encode_utf8(&mut buf).as_bytes());
+			}
+			2 => b.push(0x80 | src.below(64) as u8),
+			3 => {
+				// truncated sequence
+				let mut buf = [0u8; 4];
+				let e = src.pick(&['é', '漢', '😀', '\u{10ffff}', '\u{800}']).encode_utf8(&mut buf).as_bytes().to_vec();
+				let keep = 1 + src.below(e.len() - 1);
+				b.extend_from_slice(&e[..keep]);
+			}
+			4 => b.extend_from_slice(*src.pick(&[&[0xc0u8, 0x80][..], &[0xc1, 0xbf], &[0xe0, 0x80, 0x80], &[0xe0, 0x9f, 0xbf], &[0xf0, 0x80, 0x80, 0x80], &[0xf0, 0x8f, 0xbf, 0xbf]])),
+			5 => b.extend_from_slice(*src.pick(&[&[0xedu8, 0xa0, 0x80][..], &[0xed, 0xbf, 0xbf], &[0xed, 0xad, 0xbf, 0xed, 0xbe, 0x80]])),
+			6 => b.extend_from_slice(*src.pick(&[&[0xf4u8, 0x90, 0x80, 0x80][..], &[0xf5, 0x80, 0x80, 0x80], &[0xf8, 0x88, 0x80, 0x80, 0x80], &[0xff], &[0xfe]])),
+			_ => b.push(src.below(256) as u8),
+		}
+	}
+	b.truncate(12);
+	b
+}
+
+/// base64 text: (text, Some(bytes) when it is the padded encoding of these bytes)
+fn gen_b64_text(src: &mut Src) -> (String, Option<Vec<u8>>) {
+	let bytes = if src.chance(1, 2) { gen_bytes(src) } else { gen_plain_bytes(src) };
+	let good = my_b64(&bytes);
+	let mut v: Vec<char> = good.chars().collect();
+	match src.weighted(&[8, 1, 1, 1, 1, 1]) {
+		0 => return (good, Some(bytes)),
+		1 => {
+			// padding removed
+			while v.last() == Some(&'=') {
+				v.pop();
+			}
+			if v.len() % 4 == 0 && !v.is_empty() {
+				v.pop();
+			}
+		}
+		2 => {
+			// character outside the alphabet
+			let at = src.below(v.len() + 1);
+			v.insert(at, *src.pick(&['$', '-', '_', 'é', '.', '😀']));
+		}
+		3 => {
+			// white space / line break
+			let at = src.below(v.len() + 1);
+			v.insert(at, *src.pick(&[' ', '\n', '\r', '\t']));
+		}
+		4 => {
+			// padding in the wrong place or too much of it
+			let at = src.below(v.len() + 1);
+			v.insert(at, '=');
+		}
+		_ => {
+			// non-zero bits after the last byte
+			if v.last() == Some(&'=') {
+				let i = v.iter().position(|c| *c == '=').unwrap() - 1;
+				v[i] = if v[i] == 'B' { 'C' } else { 'B' };
+			} else {
+				v.push('A');
+			}
+		}
+	}
+	(v.into_iter().collect(), None)
+}
+
+fn call_oracle(run: &Run, strings: &[String], bytes: &[Vec<u8>], b64: &[String]) -> Option<Value> {
+	let req = json!({"strings": strings, "bytes": bytes, "b64": b64}).to_string();
+	let fail = |m: String| {
+		run.infra(format!("python sidecar: {m}"));
+		None
+	};
+	let mut child = match Command::new("/usr/bin/python3").arg(ORACLE).stdin(Stdio::piped()).stdout(Stdio::piped()).stderr(Stdio::piped()).spawn() {
+		Ok(c) => c,
+		Err(e) => return fail(format!("cannot start: {e}")),
+	};
+	let mut stdin = child.stdin.take().unwrap();
+	let writer = std::thread::spawn(move || {
+		let _ = stdin.write_all(req.as_bytes());
+	});
+	let out = match child.wait_with_output() {
+		Ok(o) => o,
+		Err(e) => return fail(format!("no output: {e}")),
+	};
+	let _ = writer.join();
+	if !out.status.success() {
+		return fail(format!("exit {:?}: {}", out.status.code(), String::from_utf8_lossy(&out.stderr)));
+	}
+	match serde_json::from_slice::<Value>(&out.stdout) {
+		Ok(v) if v["strings"].as_array().map(|a| a.len()) == Some(strings.len()) && v["bytes"].as_array().map(|a| a.len()) == Some(bytes.len()) && v["b64"].as_array().map(|a| a.len()) == Some(b64.len()) => Some(v),
+		Ok(_) => fail("answer has the wrong shape".to_owned()),
+		Err(e) => fail(format!("answer is not JSON: {e}")),
+	}
+}
+
+fn sc_string(cfg: &Cfg, seed: u64, i: u64) -> Vec<char> {
+	let tape = derived_tape(seed, "sc-str", i, 160);
+	gen_str_x(cfg, &mut Src::new(&tape), 64, &['\u{e9}', '\u{ff}', '\u{80}', '\u{7f}', '\u{0}'])
+}
+fn sc_bytes(seed: u64, i: u64) -> Vec<u8> {
+	let tape = derived_tape(seed, "sc-bytes", i, 64);
+	gen_bytes(&mut Src::new(&tape))
+}
+fn sc_b64(seed: u64, i: u64) -> (String, Option<Vec<u8>>) {
+	let tape = derived_tape(seed, "sc-b64", i, 96);
+	gen_b64_text(&mut Src::new(&tape))
+}
+
+const SC_FUNCS: &[&str] = &["encodeUTF8", "decodeUTF8", "base64", "base64Decode", "base64DecodeBytes", "md5", "sha1", "sha256", "sha512", "sha3"];
+
+/// out-of-domain arguments of the byte-array functions: nothing is promised, they must just not crash
+const DOMAIN_EXTRAS: &[(&str, &str)] = &[
+	("decodeUTF8", "std.decodeUTF8([256])"),
+	("decodeUTF8", "std.decodeUTF8([-1])"),
+	("decodeUTF8", "std.decodeUTF8([97, 1.5])"),
+	("decodeUTF8", "std.decodeUTF8([\"a\"])"),
+	("decodeUTF8", "std.decodeUTF8([97, null])"),
+	("base64", "std.base64([256])"),
+	("base64", "std.base64([-1])"),
+	("base64", "std.base64([1.5])"),
+	("base64", "std.base64([\"a\"])"),
+	("base64DecodeBytes", "std.base64DecodeBytes(\"=\")"),
+	("base64DecodeBytes", "std.base64DecodeBytes(\"====\")"),
+	("base64Decode", "std.base64Decode(\"=\")"),
+];
+
+/// all questions of the batch stages about the given inputs (keys s<i>, b<i>, t<i>, x<i>)
+fn sidecar_questions(run: &Run, cfg: &Cfg, si: &[u64], bi: &[u64], ti: &[u64], xi: &[u64]) -> Vec<Q> {
+	let strings: Vec<Vec<char>> = si.iter().map(|i| sc_string(cfg, run.seed, *i)).collect();
+	let bytes: Vec<Vec<u8>> = bi.iter().map(|i| sc_bytes(run.seed, *i)).collect();
+	let texts: Vec<(String, Option<Vec<u8>>)> = ti.iter().map(|i| sc_b64(run.seed, *i)).collect();
+	let Some(ans) = call_oracle(run, &strings.iter().map(|s| st(s)).collect::<Vec<_>>(), &bytes, &texts.iter().map(|t| t.0.clone()).collect::<Vec<_>>()) else {
+		return vec![];
+	};
+	let mut out = vec![];
+	let mut push = |mut qu: Q, key: String| {
+		qu.key = key;
+		out.push(qu);
+	};
+	for ((i, s), a) in si.iter().zip(&strings).zip(ans["strings"].as_array().unwrap()) {
+		let key = format!("s{i}");
+		let l = litc(s);
+		let wide = is_wide(s);
+		let utf8: Vec<J> = a["utf8"].as_array().unwrap().iter().map(|x| J::Num(x.as_f64().unwrap())).collect();
+		push(q("encodeUTF8", format!("std.encodeUTF8({l})"), Want::Is(J::Arr(utf8)), wide, Some(s)), key.clone());
+		for h in ["md5", "sha1", "sha256", "sha512", "sha3"] {
+			let name: &'static str = SC_FUNCS.iter().find(|f| **f == h).unwrap();
+			push(q(name, format!("std.{h}({l})"), Want::Is(J::Str(a[h].as_str().unwrap().to_owned())), true, Some(s)), key.clone());
+		}
+		// "the codepoints / numbers must be in the 0 to 255 range": one code point is one byte; strings with larger
+		// code points are outside the documented domain
+		let want = if !wide {
+			let w = a["b64_utf8"].as_str().unwrap().to_owned();
+			if Some(w.as_str()) != a["b64_latin1"].as_str() || w != my_b64(st(s).as_bytes()) {
+				run.infra(format!("base64 references disagree on {l}"));
+			}
+			Want::Is(J::Str(w))
+		} else {
+			match a["b64_latin1"].as_str() {
+				Some(w) => Want::Is(J::Str(w.to_owned())),
+				None => Want::Any,
+			}
+		};
+		let mut qu = q("base64", format!("std.base64({l})"), want, true, Some(s));
+		if wide {
+			qu = qu.or_known(K_BASE64_STR, Want::Is(J::Str(a["b64_utf8"].as_str().unwrap().to_owned())));
+		}
+		push(qu, key.clone());
+	}
+	for ((i, b), a) in bi.iter().zip(&bytes).zip(ans["bytes"].as_array().unwrap()) {
+		let key = format!("b{i}");
+		let l = bytes_lit(b);
+		let replace = a["replace"].as_str().unwrap().to_owned();
+		let want = match a["strict"].as_str() {
+			Some(s) => {
+				if s != utf8_per_byte_replace(b) {
+					run.infra(format!("UTF-8 references disagree on {l}"));
+				}
+				Want::Is(J::Str(s.to_owned()))
+			}
+			// ill-formed input: U+FFFD is substituted, per maximal ill-formed subsequence or per byte
+			None => Want::OneOf(vec![J::Str(replace), J::Str(utf8_per_byte_replace(b))]),
+		};
+		push(q("decodeUTF8", format!("std.decodeUTF8({l})"), want, true, None), key.clone());
+		let w = a["b64"].as_str().unwrap().to_owned();
+		if w != my_b64(b) {
+			run.infra(format!("base64 references disagree on {l}"));
+		}
+		push(q("base64", format!("std.base64({l})"), Want::Is(J::Str(w)), true, None), key.clone());
+	}
+	for ((i, (t, known)), a) in ti.iter().zip(&texts).zip(ans["b64"].as_array().unwrap()) {
+		let key = format!("t{i}");
+		let l = lit(t);
+		let (wb, ws) = match known {
+			Some(b) => {
+				let py: Option<Vec<u8>> = a["bytes"].as_array().map(|v| v.iter().map(|x| x.as_u64().unwrap() as u8).collect());
+				if py.as_ref() != Some(b) {
+					run.infra(format!("base64 decoding references disagree on {l}"));
+				}
+				// "returns a naively encoded string instead of an array of bytes": one code point per byte
+				let naive: String = b.iter().map(|x| char::from(*x)).collect();
+				(Want::Is(J::Arr(b.iter().map(|x| J::Num(*x as f64)).collect())), Want::Is(J::Str(naive)))
+			}
+			// "assumes the input string has no linebreaks and is padded to a multiple of 4": anything else is open
+			None => (Want::Any, Want::Any),
+		};
+		push(q("base64DecodeBytes", format!("std.base64DecodeBytes({l})"), wb, true, None), key.clone());
+		let mut qu = q("base64Decode", format!("std.base64Decode({l})"), ws, true, None);
+		if let Some(b) = known {
+			// signature of the recorded finding: the bytes are decoded as UTF-8, ill-formed input is an error
+			let strict = utf8_per_byte_replace(b);
+			let well_formed = strict.as_bytes() == &b[..];
+			qu = qu.or_known(K_BASE64_DECODE, if well_formed { Want::Is(J::Str(strict)) } else { Want::Err });
+		}
+		push(qu, key.clone());
+	}
+	for i in xi {
+		if let Some((f, e)) = DOMAIN_EXTRAS.get(*i as usize) {
+			let name: &'static str = SC_FUNCS.iter().find(|x| *x == f).unwrap();
+			push(q(name, (*e).to_owned(), Want::Any, false, None), format!("x{i}"));
+		}
+	}
+	out
+}
+
+fn sidecar_stage(run: &Run, func: &str, qs: Vec<&Q>) {
+	let stage = format!("sc-{func}");
+	let chunks: Vec<&[&Q]> = qs.chunks(CHUNK).collect();
+	run.enumerate(&stage, chunks.len() as u64, |i| {
+		let chunk = chunks[i as usize];
+		let owned: Vec<Q> = chunk.iter().map(|x| Q { expr: x.expr.clone(), want: x.want.clone(), func: x.func, nontrivial: x.nontrivial, early: x.early, key: x.key.clone(), alt: x.alt.clone() }).collect();
+		let res = ask(run, &owned);
+		let mut problems = vec![];
+		let mut known = None;
+		for (qu, r) in owned.iter().zip(res) {
+			match r {
+				Ans::Ok => {}
+				Ans::Known(id) => known = known.or(Some(id)),
+				Ans::Bad(e) => problems.push(format!("[{}] {}  →  {e}", qu.key, qu.expr)),
+			}
+		}
+		for qu in owned.iter().skip(1) {
+			run.record(&stage, &CaseOut::pass(qu.expr.clone(), qu.nontrivial).classes(classes_of(qu)));
+		}
+		let first = &owned[0];
+		verdict_of(first.expr.clone(), first, problems, known, format!("batch starting at `{}`", first.expr))
+	});
+}
+
+// ---------------------------------------------------------------------------------------------------------------
+// entry points
+// ---------------------------------------------------------------------------------------------------------------
+
+fn cfg_for(thorough: bool) -> Cfg {
+	Cfg { maxlen: if thorough { 64 } else { 12 } }
+}
+
+pub fn run(run: &Run) {
+	run.set_rule("per function of the property: calls generated from a choice tape (strings of 0..12 code points, thorough 0..64, over an alphabet of ASCII, 2/3/4-byte and combining code points, half of the positions non-ASCII; tiny-alphabet strings so that patterns repeat and overlap; patterns that are substrings, altered substrings, the subject, longer than the subject or empty; offsets/counts 0..len+3, -1, fractional; maxsplits -1,0,1,2,len,len+1; numeric strings with invalid digits, signs, leading zeros and values around 2^53/2^64; code points around every encoding-length and surrogate boundary; generated and mutated JSON texts), expected result from a reference implementation over code-point vectors transcribed from the documented definition (value, must-be-error, or 'any' where the documentation is silent); hashes, base64 and UTF-8 decided by Python (hashlib/base64/bytes.decode) on inputs derived from the seed; six inverse laws decided without a reference. Each call is one case; a case is non-trivial when an argument contains a multi-byte code point, an offset or count reaches the length, or an input is invalid for the function.");
+	run.assume("the documented definitions are those of https://jsonnet.org/ref/stdlib.html; where they are silent (negative or fractional counts, empty separators and patterns, non-padded base64, code points above 255 in std.base64, rounding of parsed integers beyond 2^53, case folding outside ASCII) any outcome but a crash is accepted");
+	run.assume("Python 3 hashlib / base64 / bytes.decode give the standard digests, RFC 4648 base64 and UTF-8 decoding");
+	let thorough = run.tier.pick(false, true);
+	let cfg = cfg_for(thorough);
+	run.reproduce_known(|k| match known_question(&k.id) {
+		Some(qu) => match ask(run, std::slice::from_ref(&qu)).pop() {
+			Some(Ans::Ok) => CaseOut::pass(qu.expr.clone(), true),
+			Some(Ans::Known(id)) => CaseOut { verdict: Verdict::Known(id.to_owned()), text: qu.expr.clone(), nontrivial: true, classes: vec![] },
+			Some(Ans::Bad(e)) => CaseOut::fail(qu.expr.clone(), e),
+			None => CaseOut::discard(qu.expr.clone(), "not asked"),
+		},
+		None => CaseOut::fail(k.replay.clone(), format!("no reproducer is built in for the recorded finding {}", k.id)),
+	});
+	let cases: u32 = run.tier.pick(4096, 4096 * 30);
+	for (stage, _, gen) in SPECS {
+		SHRINKING.with(|s| s.set(false));
+		// a question draws 20..60 choices (more with long strings); an exhausted tape continues with the simplest choices
+		run.explore(stage, cases, 256..=run.tier.pick(768, 2048), |src| tape_case(run, &cfg, stage, *gen, src));
+	}
+	// batch stages
+	// (the sidecar is called once per block of inputs; blocks bound the memory of the thorough tier)
+	let n: u64 = run.tier.pick(12_000, 12_000 * 30);
+	let idx: Vec<u64> = (0..n).collect();
+	for (bno, block) in idx.chunks(24_000).enumerate() {
+		let xi: Vec<u64> = if bno == 0 { (0..DOMAIN_EXTRAS.len() as u64).collect() } else { vec![] };
+		let t_sidecar = std::time::Instant::now();
+		let all = sidecar_questions(run, &cfg, block, block, block, &xi);
+		run.stage_info(json!({"stage": "sidecar-preparation", "kind": "setup", "inputs": 3 * block.len(), "wall_s": t_sidecar.elapsed().as_secs_f64()}));
+		if all.is_empty() {
+			run.infra("batch stages skipped: no answer from the sidecar");
+		}
+		for f in SC_FUNCS {
+			let mine: Vec<&Q> = all.iter().filter(|qu| qu.func == *f).collect();
+			if !mine.is_empty() {
+				sidecar_stage(run, f, mine);
+			}
+		}
+	}
+	// floors
+	let floor = run.tier.pick(100, 3000);
+	for (_, class, _) in SPECS {
+		run.require_class(&format!("fn:{class}"), floor);
+	}
+	for f in SC_FUNCS {
+		run.require_class(&format!("fn:{f}"), floor);
+	}
+	let (subjects, early_n) = {
+		let st = run.stats.lock().unwrap();
+		(st.classes.get("subject:string").copied().unwrap_or(0), st.classes.get("subject:nonascii-early").copied().unwrap_or(0))
+	};
+	run.note(format!("{early_n} of {subjects} non-empty subject strings have a non-ASCII code point in their first half"));
+	if early_n * 10 < subjects * 6 {
+		run.infra(format!("generator degenerate: only {early_n} of {subjects} subject strings have an early non-ASCII code point (< 60 %)"));
+	}
+}
+
+pub fn replay(run: &Run, stage: &str, tape: Option<&[u16]>, v: &Value) -> Option<CaseOut> {
+	let cfg = cfg_for(v["tier"].as_str() == Some("thorough"));
+	if let Some((st, _, gen)) = SPECS.iter().find(|s| s.0 == stage) {
+		let tape = tape?;
+		return Some(tape_case(run, &cfg, st, *gen, &mut Src::new(tape)));
+	}
+	// batch stage: the failing questions are listed in `why` as `[key] expr  →  ...`; regenerate those inputs, ask
+	// the sidecar again and re-ask the questions of this stage's function about them
+	let func = stage.strip_prefix("sc-")?;
+	let why = v["why"].as_str()?;
+	let (mut si, mut bi, mut ti, mut xi) = (vec![], vec![], vec![], vec![]);
+	for line in why.lines() {
+		let Some(rest) = line.strip_prefix('[') else { continue };
+		let Some((key, _)) = rest.split_once(']') else { continue };
+		let mut cs = key.chars();
+		let kind = cs.next();
+		let Ok(i) = cs.as_str().parse::<u64>() else { continue };
+		match kind {
+			Some('s') => si.push(i),
+			Some('b') => bi.push(i),
+			Some('t') => ti.push(i),
+			Some('x') => xi.push(i),
+			_ => {}
+		}
+	}
+	let qs: Vec<Q> = sidecar_questions(run, &cfg, &si, &bi, &ti, &xi).into_iter().filter(|qu| qu.func == func).collect();
+	if qs.is_empty() {
+		return None;
+	}
+	let mut problems = vec![];
+	let mut known = None;
+	for (qu, r) in qs.iter().zip(ask(run, &qs)) {
+		match r {
+			Ans::Ok => {}
+			Ans::Known(id) => known = known.or(Some(id)),
+			Ans::Bad(e) => problems.push(format!("[{}] {}  →  {e}", qu.key, qu.expr)),
+		}
+	}
+	let text = qs.iter().map(|qu| qu.expr.clone()).collect::<Vec<_>>().join("\n");
+	Some(verdict_of(text.clone(), &qs[0], problems, known, text))
+}
+
+/// the recorded findings' own reproducers
+fn known_question(id: &str) -> Option<Q> {
+	match id {
+		K_BASE64_STR => Some(q("base64", "std.base64(\"é\")".to_owned(), Want::Is(J::Str("6Q==".into())), true, None).or_known(K_BASE64_STR, Want::Is(J::Str("w6k=".into())))),
+		K_BASE64_DECODE => Some(q("base64Decode", "std.base64Decode(\"w6k=\")".to_owned(), Want::Is(J::Str("Ã©".into())), true, None).or_known(K_BASE64_DECODE, Want::Is(J::Str("é".into())))),
+		K_PARSE_HEX => Some(q("parseHex", "std.parseHex(\":\")".to_owned(), Want::Err, true, None).or_known(K_PARSE_HEX, Want::Is(J::Num(10.0)))),
+		_ => None,
+	}
 }
